@@ -271,4 +271,79 @@ example :
     visit raw "/".toList = ["foo".toList, "foo/bar".toList, "xmetador_".toList] ∧
     keys raw "/foo".toList = ["bar".toList] ∧ len raw "/".toList = 2 := by decide
 
+/-! ## The bookkeeping never disturbs user data
+
+Raw operations on the flat raw tree (`create`, `delete` with everything below, `copy` with
+everything below, `move`); user operations and the bookkeeping of `MetadorMeta` / the TOC are
+both sequences of them. -/
+
+/-- A bookkeeping operation (what it creates, deletes, copies to or moves lies in the reserved
+namespace) leaves the user-visible tree exactly as it was. -/
+theorem bookkeeping_invisible (op : RawOp) (h : op.isBookkeeping = true) (raw : Raw) :
+    userView (applyRaw op raw) = userView raw := by
+  cases op with
+  | create n =>
+    simp only [RawOp.isBookkeeping] at h
+    simp [applyRaw, userView, h]
+  | delete p => exact userView_delete_internal p h raw
+  | copy s d =>
+    simp only [RawOp.isBookkeeping] at h
+    simp only [applyRaw, rawCopy_eq, userView_append, userView_copied_internal s d h, List.append_nil]
+  | move s d =>
+    simp only [RawOp.isBookkeeping, Bool.and_eq_true] at h
+    simp only [applyRaw, rawCopy_eq]
+    rw [userView_delete_internal s h.1, userView_append, userView_copied_internal s d h.2, List.append_nil]
+
+/-- A user operation acts on the user-visible tree exactly as it would on a plain tree that
+never had any bookkeeping in it: `userView (step raw op) = step (userView raw) op`. -/
+theorem userView_refines (op : RawOp) (h : op.isUser = true) (raw : Raw) :
+    userView (applyRaw op raw) = applyRaw op (userView raw) := by
+  cases op with
+  | create n =>
+    simp only [RawOp.isUser] at h
+    simp [applyRaw, userView, h]
+  | delete p => exact userView_delete_comm p raw
+  | copy s d =>
+    simp only [RawOp.isUser, Bool.and_eq_true, Bool.not_eq_eq_eq_not, Bool.not_true] at h
+    simp only [applyRaw, rawCopy_eq, userView_append, userView_copied_user s d h.1 h.2]
+  | move s d =>
+    simp only [RawOp.isUser, Bool.and_eq_true, Bool.not_eq_eq_eq_not, Bool.not_true] at h
+    simp only [applyRaw, rawCopy_eq]
+    rw [userView_delete_comm, userView_append, userView_copied_user s d h.1 h.2]
+
+/-- … hence for whole histories: interleave any bookkeeping with the user operations, the
+user-visible tree is the plain tree driven by the user operations alone. -/
+theorem userView_history (ops : List RawOp) (h : ∀ op ∈ ops, op.isUser = true ∨ op.isBookkeeping = true)
+    (raw : Raw) :
+    userView (ops.foldl (fun r op => applyRaw op r) raw) =
+    (ops.filter (·.isUser)).foldl (fun r op => applyRaw op r) (userView raw) := by
+  induction ops generalizing raw with
+  | nil => rfl
+  | cons op ops ih =>
+    have hrest : ∀ o ∈ ops, o.isUser = true ∨ o.isBookkeeping = true :=
+      fun o ho => h o (List.mem_cons_of_mem _ ho)
+    simp only [List.foldl_cons]
+    rw [ih hrest]
+    by_cases hu : op.isUser = true
+    · simp only [List.filter_cons, hu, ↓reduceIte, List.foldl_cons, userView_refines op hu]
+    · have hb : op.isBookkeeping = true := by
+        rcases h op (by simp) with h1 | h1
+        · exact absurd h1 hu
+        · exact h1
+      simp only [List.filter_cons, hu, Bool.false_eq_true, ↓reduceIte, bookkeeping_invisible op hb]
+
+/-- non-vacuity: data with metadata directories and TOC entries; a copy of the group (which
+copies the metadata directory along), bookkeeping that renames the copied metadata object, and
+a delete — the user sees the plain result -/
+example :
+    let raw : Raw := [⟨"/foo".toList, true⟩, ⟨"/foo/bar".toList, false⟩, ⟨"/foo/metador_meta_bar".toList, true⟩,
+      ⟨"/foo/metador_meta_bar/core.bib__0.1.0=u1".toList, false⟩, ⟨"/metador_container".toList, true⟩]
+    let ops : List RawOp := [.copy "/foo".toList "/baz".toList,
+      .move "/baz/metador_meta_bar/core.bib__0.1.0=u1".toList "/baz/metador_meta_bar/core.bib__0.1.0=u2".toList,
+      .create ⟨"/metador_container/links/u2".toList, false⟩, .delete "/foo/bar".toList]
+    (userView (ops.foldl (fun r op => applyRaw op r) raw)).map (·.name) =
+      ["/foo".toList, "/baz".toList, "/baz/bar".toList] ∧
+    (ops.map fun o => (o.isUser, o.isBookkeeping)) = [(true, false), (false, true), (false, true), (true, false)] := by
+  decide
+
 end MetadorModel.C08
